@@ -3,7 +3,6 @@
    violates the property on concrete inputs. *)
 From V.model Require Import Base Deb822Lex Deb822Parse Grammar Lossy LossySpec Deb822Edit LiveDoc Deb822Wrap WrapSpec.
 From V.proofs Require Import BaseP GrammarLexP GrammarParseP GrammarAccP Deb822EditP LiveDocP LiveParaP Deb822WrapP.
-Set Default Timeout 60.
 
 (* ---------------------------------------------------------------- comparators *)
 Lemma N_compare_gt_flip x y : N.compare x y = Gt -> N.compare y x = Lt.
